@@ -21,6 +21,7 @@ type bulkConcCase struct {
 	Op      string // reset | cleanup | delete-others
 	Writers int
 	Initial int32
+	Stopped bool // Stop was called before the bulk operation: only the background cleaner ends, the cache stays usable
 }
 
 func (c bulkConcCase) String() string { return fmt.Sprintf("bulk.concurrent%+v", bulkConcPlain(c)) }
@@ -35,6 +36,9 @@ func runBulkConc(c bulkConcCase) error {
 	}
 	for i := 0; i < c.Old/2; i++ {
 		cache.Set(fmt.Sprintf("victim-%d", i), -i, 100000)
+	}
+	if c.Stopped {
+		cache.Stop()
 	}
 	var stop atomic.Bool
 	var wg sync.WaitGroup
@@ -93,13 +97,17 @@ func TestBulkConcurrent(t *testing.T) {
 	sec := vk.Sec("BulkConcurrent")
 	vk.Check(t, 40, 4000, func(rt *rapid.T) {
 		c := bulkConcCase{Old: rapid.SampledFrom([]int{64, 1000, 4000}).Draw(rt, "old"), Op: rapid.SampledFrom([]string{"reset", "reset", "cleanup", "delete-others"}).Draw(rt, "op"),
-			Writers: rapid.IntRange(1, 4).Draw(rt, "writers"), Initial: rapid.SampledFrom([]int32{0, 0, 16}).Draw(rt, "initial")}
+			Writers: rapid.IntRange(1, 4).Draw(rt, "writers"), Initial: rapid.SampledFrom([]int32{0, 0, 16}).Draw(rt, "initial"), Stopped: rapid.IntRange(0, 2).Draw(rt, "stopped") == 0}
 		var err error
 		vk.Guard("C15 bulk operation with concurrent writers: "+c.String(), func() { err = runBulkConc(c) })
 		if err != nil {
 			rt.Fatalf("C15 ttlcache violated: %v\ncase: %s", err, c)
 		}
-		sec.Case(true, vk.FP(c.String()), "bulk-concurrent."+c.Op)
+		after := ""
+		if c.Stopped {
+			after = "bulk-concurrent.after-Stop"
+		}
+		sec.Case(true, vk.FP(c.String()), "bulk-concurrent."+c.Op, after)
 		sec.Sample(func() any { return c.String() })
 	})
 }
